@@ -3,6 +3,7 @@ package health
 import (
 	"errors"
 	"net/http"
+	"sync"
 	"sync/atomic"
 	"time"
 
@@ -32,6 +33,12 @@ type circuitState struct {
 	lastFailure int64
 	lastAttempt int64
 	isOpen      int32
+	// mu serialises the steps that read or write several of the fields above at once: the
+	// recording calls, and the admission of a probe while the circuit is open. Interleaved,
+	// a success racing a failure left the circuit open with no failures counted, and a caller
+	// that had read the old lastFailure could be admitted right after another caller's probe
+	// had failed. The closed-circuit fast path in IsOpen stays lock-free.
+	mu sync.Mutex
 }
 
 func NewCircuitBreaker() *CircuitBreaker {
@@ -52,6 +59,11 @@ func (cb *CircuitBreaker) IsOpen(endpointURL string) bool {
 
 	// Check if circuit should auto-recover
 	if atomic.LoadInt32(&state.isOpen) == 1 {
+		state.mu.Lock()
+		defer state.mu.Unlock()
+		if atomic.LoadInt32(&state.isOpen) != 1 {
+			return false // closed by a success in the meantime
+		}
 		lastFailure := atomic.LoadInt64(&state.lastFailure)
 		if time.Unix(0, lastFailure).Add(cb.timeout).Before(time.Now()) {
 			// Allow one request through (half-open state)
@@ -82,6 +94,8 @@ func (cb *CircuitBreaker) RecordSuccess(endpointURL string) {
 		return
 	}
 
+	state.mu.Lock()
+	defer state.mu.Unlock()
 	atomic.StoreInt64(&state.failures, 0)
 	atomic.StoreInt32(&state.isOpen, 0)
 	atomic.StoreInt64(&state.lastAttempt, 0)
@@ -90,6 +104,8 @@ func (cb *CircuitBreaker) RecordSuccess(endpointURL string) {
 func (cb *CircuitBreaker) RecordFailure(endpointURL string) {
 	state := cb.loadOrCreateState(endpointURL)
 
+	state.mu.Lock()
+	defer state.mu.Unlock()
 	failures := atomic.AddInt64(&state.failures, 1)
 	atomic.StoreInt64(&state.lastFailure, time.Now().UnixNano())
 	atomic.StoreInt64(&state.lastAttempt, 0)
